@@ -456,6 +456,21 @@ Theorem genesis_roundtrip_keeps_admins : forall (c : cfg) (str_of : acct -> stri
 Proof. exact genesis_roundtrip_effect. Qed.
 Print Assumptions genesis_roundtrip_keeps_admins.
 
+(** Effect form over the extended chain.  In a reachable state ([xwf]), if ANY honest op — a user's
+    message, a contract's binding call, a fee change, another module, a genesis round trip — changes
+    the admin record of a denom whose admin is [a], or (the genesis round trip aside, which resets
+    bank metadata to the bare one) its metadata, then that op is a successful privileged call on that
+    denom made by [a] (as a message sender, or as the contract whose address string is [a]). *)
+Theorem control_only_by_admin_extended : forall (c : cfg) (str_of : acct -> string) (authority : string),
+  addr_of c EmptyString = None -> (forall a, addr_of c (str_of a) = Some a) ->
+  forall xs o d a,
+  xwf c xs -> honest o -> admin_rec (st xs) d = Some a ->
+  admin_rec (st (xstep c str_of authority xs o)) d <> Some a \/
+    (o <> XGenesis /\ meta_of (st (xstep c str_of authority xs o)) d <> meta_of (st xs) d) ->
+  xprivileged str_of o = Some (a, d) /\ xsucceeded c str_of authority xs o = true.
+Proof. exact xcontrol_only_by_admin. Qed.
+Print Assumptions control_only_by_admin_extended.
+
 (** ---- the second-round model is of the source as it is now ---- *)
 
 (** The msg service router of the pinned cosmos-sdk calls ValidateBasic before the service method
